@@ -4,7 +4,7 @@ import math
 from engine import Prop, fbits, bitsf, err_kind
 
 from props.geo14 import (A, F, E2, TOL_DEG, TOL_M, o_g2e, o_e2g, dlon, geo_diff, m_diff, base_geo, close_geo, close_m,
-                         _c, _cm)
+                         _c, _cm, wrap3, rand_ty, fit3, corr_close_m, corr_close_geo)
 from props import c14hist as H
 
 
@@ -71,8 +71,9 @@ def sim(case):
                     rec = ("S", b[1])
                 else:
                     rec = ("P", b)
-                if arg is None and (len(out) > 0):
-                    # the first observation of the *current* track: only known to the oracle when attached
+                if arg is None:
+                    # the library chooses the base (the first observation, today): the property does not say which point,
+                    # so the oracle does not know it; only a return without argument (the recorded base) is attached
                     rec = ("P", "first")
                 kind = "N"
             elif kind == "E":
@@ -81,7 +82,7 @@ def sim(case):
                     out.append(("illegal", "int base for an ECEF track"))
                     break
                 rec = ("P", b)
-                if arg is None and (len(out) > 0):
+                if arg is None:
                     rec = ("P", "first")
                 kind = "N"
             else:
@@ -123,6 +124,11 @@ class P(Prop):
         (M, "TV.C14.track_enu_if_needed", "Track.toENUCoordsIfNeeded on a Geo track is toENUCoords() with the first observation as base; any other track is left alone"),
         (M, "TV.C14.track_enu_rebinds_fresh", "after Track.toENUCoords the positions and Track.base are new objects (the recorded base is a copy, never the caller's object); older objects untouched"),
         (M, "TV.C14.track_round_trip_survives_update", "Geo track -> ENU(b) -> caller updates any older object (b included) -> toGeoCoords(): succeeds, positions are their Geo->ECEF->Geo images, Track.base is b as it was"),
+        (M, "TV.C14.track_round_trip_recorded_base", "returns without argument (through Track.base) for a base of either class: as coded, positions go forth with the base and back with the record; exact whenever the record denotes the point used (geoToEcef(b.toGeo) = b.toEcef), and then the recorded base has local coordinates (0,0,0)"),
+        (M, "TV.C14.recorded_base_denotes_base_used", "that hypothesis holds for every GeoCoords base (any trig functions) and, over the reals, for an ECEFCoords base on the ellipsoid"),
+        (M, "TV.C14.track_default_base", "Track.toENUCoords() without argument as coded: first observation at (0,0,0), record = its position (Geo track) / its closed-form inverse (ECEF track); returns without argument exact (ECEF track: when the inverse is exact at the first position)"),
+        ("TracklibVerif.Props.C14Num", "TV.C14.number_types_irrelevant", "a position is the same whatever Python type its numbers have: every point-level conversion (Geo/ECEF/ENU in all directions, rebasing, Lambert-93 forward) evaluated with Python's mixed arithmetic on int / bool / numpy integer / Fraction / float coordinates and bases (Model/GeoNum.lean) returns the float-only model's result on float(v); over exact arithmetic, any libm"),
+        (M, "TV.C14.track_default_round_trip_survives_update", "Geo track -> toENUCoords() (base chosen by the library) -> caller updates any older object (the first position object included) -> toGeoCoords(): succeeds, positions are their Geo->ECEF->Geo images, Track.base is the first position as it was"),
     ]
     partial = [
         "geo_ecef_geo_partial / geo_enu_geo_partial: exact round trip proved for h = 0. For h != 0 (geo_ecef_geo_residual, geo_enu_geo_residual) the "
@@ -136,8 +142,14 @@ class P(Prop):
         "implementation, valid for every longitude and base by geo_ecef_geo_residual / geo_enu_geo_residual",
         "Lambert-93 inverse then forward (XY -> Geo -> XY) within 1 mm: follows over the reals from lambert_round_trip only for XY in the image of the forward map; sampled by the transfer check",
         "IEEE rounding of every formula (theorems are over the reals): transfer only",
-        "whole-track round trip through the recorded base when the base was given as ECEFCoords: false as an exact statement (the recorded "
-        "base is the closed-form inverse of it) and beyond 1e-9 deg next to the poles: the known finding",
+        "number types in doubles: number_types_irrelevant is over exact arithmetic; in doubles Python's exact int/Fraction operations (X*X + Y*Y, X - base.X) "
+        "and the model's rounded ones differ in the last bit: correspondence on the typed cases (`ty`), 1e-7 m for Fraction cases; the whole-track and "
+        "heap-level methods on typed numbers are covered by correspondence only (they apply the point-level conversions to each position)",
+        "whole-track round trip through the recorded base when the base is an ECEFCoords (explicit, or the first position of an ECEF track "
+        "converted without argument) OFF the ellipsoid: proved exact when the record denotes the point used (track_round_trip_recorded_base: every "
+        "GeoCoords base, an ECEFCoords base on the ellipsoid); otherwise the code returns enuToEcef(ecefToEnu(p, b), b.toGeoCoords()) (same theorem), "
+        "off by Bowring's residual at the base, beyond 1e-9 deg next to the poles: the known finding; a bound on that shift needs the analytic "
+        "bound of the first open statement",
     ]
     modelled = ("obs_coords.py: GeoCoords.toECEFCoords/toENUCoords (STANDARD_PROJ == 1 branch)/toProjCoords, ECEFCoords.toGeoCoords/"
                 "toENUCoords, ENUCoords.toECEFCoords/toGeoCoords/toENUCoords, _proj/_unproj dispatch, _projToLambert93, "
@@ -146,7 +158,11 @@ class P(Prop):
                 "mutable objects: GeoCoords/ENUCoords/ECEFCoords instances with setX/setY/setZ and attribute assignment, the dynamic "
                 "dispatch obj.to{ECEF,ENU,Geo,Proj}Coords(*args) with its TypeError/AttributeError/exit branches, copy semantics of "
                 "same-class conversions, Track(obs, base=...) sharing its position and base objects, Track.getSRID() (class of the first "
-                "position), Track.to*Coords and Track.toENUCoordsIfNeeded rebinding positions and Track.base to new objects. Not modelled: _projFromUTM, "
+                "position), Track.to*Coords and Track.toENUCoordsIfNeeded rebinding positions and Track.base to new objects. Model/GeoNum.lean: the numbers held by the coordinate attributes (int, bool, numpy integer, "
+                "Fraction: exact; float) with Python's mixed arithmetic (+ - * unary minus exact between exact operands, float(x) as soon as one operand "
+                "is a float, / and every math function return floats), at which the polymorphic definitions of Model/Geo.lean are instantiated "
+                "(theorem number_types_irrelevant; the driver evaluates float(v)). Not modelled: numpy.float32 / int32 coordinates (computed at their own "
+                "width under NumPy >= 2), _projFromUTM, "
                 "the STANDARD_PROJ == 2 stereographic test branch, the state a raising whole-track conversion leaves behind, plotting.")
     trusted = ["libm sin cos tan atan atan2 sqrt log exp pow: parameters of the model (structure Trig); the driver uses Lean's Float "
                "functions (same system libm as CPython: outputs were bit-identical on every case explored), the theorems use "
@@ -160,7 +176,14 @@ class P(Prop):
             "point conversions with bases given as objects, as track positions, as Track.base, as the point itself / tracks built on "
             "the caller's objects / whole-track conversions, with templates for: one base object serving two places, a base updated "
             "between the two legs of a round trip, a first track warming a base that a second one uses after an update, ENU tracks built "
-            "on the caller's base object, a base that is a position of the track, copies; 6% end with a refused call; resid: the "
+            "on the caller's base object, a base that is a position of the track, copies; 6% end with a refused call; a whole-track "
+            "conversion that leaves the choice of the base to the library (toENUCoords() without argument, toENUCoordsIfNeeded()) is judged "
+            "against the base the track has on record after the call, never against an assumed default; number types: 14% of the "
+            "pt / l93 / track / hist cases (and a quarter of the enumerated grid a second time) hand their coordinates to the library "
+            "as Python int, bool, numpy.int64, numpy.float64 or fractions.Fraction instead of float (`ty`: one type per coordinate "
+            "slot lon/E/X, lat/N/Y, hgt/U/Z, applied to points, bases, positions of tracks and in-place updates whenever the value is "
+            "exactly representable; int-like slots get integral degrees / metres): heights typed by hand, integer altitude columns, "
+            "all-int positions, mixed; the position denoted is the same, so model and oracle see float(v); resid: the "
             "(lat, h) grid of the Geo->ECEF->Geo residual. non-trivial = point differs from the base (pt), any Lambert point, any track "
             "history with at least one legal conversion, any hist with a conversion that is not refused, any resid block")
 
@@ -225,7 +248,83 @@ class P(Prop):
             b = self.rand_geo(rng)
         return self.as_base(b, rng)
 
+    # ---- number types (see geo14.py: "ty")
+    TYPED = 0.14     # share of the pt / l93 / track / hist cases whose coordinates are handed over as int / bool / numpy / Fraction
+
+    @staticmethod
+    def interior(g):
+        return [g[0], max(-89.8, min(89.8, g[1])), max(-990.0, min(9990.0, g[2]))]
+
+    def fit_base(self, b, ty, rng):
+        if b is None or b[0] == "S":
+            return b
+        return [b[0]] + fit3(b[0], b[1:], ty, rng)
+
+    def typed_pt(self, case, rng, ty=None):
+        ty = ty or rand_ty(rng)
+        c = dict(case, ty=ty)
+        eq = case["b"][0] == "G" and case["b"][1:] == case["p"]
+        if rng.random() < 0.8:
+            c["p"] = fit3("G", case["p"], ty, rng)
+        for k in ("b", "b2"):
+            if rng.random() < 0.75:
+                c[k] = self.fit_base(case[k], ty, rng)
+        if eq:
+            c["b"] = ["G"] + list(c["p"])
+        return c
+
+    def typed_l93(self, case, rng, ty=None):
+        ty = ty or rand_ty(rng)
+        return dict(case, ty=ty, p=fit3("G", case["p"], ty, rng) if rng.random() < 0.8 else case["p"])
+
+    def typed_track(self, case, rng, ty=None):
+        """equal values stay equal (a base that is a position of the track, the same base in several operations)"""
+        ty = ty or rand_ty(rng)
+        c = dict(case, ty=ty)
+        cls = case["srid"]
+        if rng.random() < 0.8:
+            if cls == "E":
+                # pulled inside the domain first, so that rounding to metres does not leave it
+                c["pts"] = [fit3("E", o_g2e(self.interior(o_e2g(p))), ty) for p in case["pts"]]
+            else:
+                c["pts"] = [fit3(cls, p, ty) for p in case["pts"]]
+        memo = {}
+
+        def fb(b):
+            if b is None or b[0] == "S":
+                return b
+            k = tuple(b)
+            if k not in memo:
+                memo[k] = self.fit_base(b, ty, None) if rng.random() < 0.75 else list(b)
+            return memo[k]
+        c["base0"] = fb(case["base0"])
+        if "home" in case:
+            c["home"] = fb(case["home"])
+        c["ops"] = [[n, fb(a)] for n, a in case["ops"]]
+        return c
+
+    def maybe_typed(self, case, rng, ty=None, share=None):
+        if ty is None and rng.random() >= (self.TYPED if share is None else share):
+            return case
+        k = case["kind"]
+        if k == "pt":
+            return self.typed_pt(case, rng, ty)
+        if k == "l93":
+            return self.typed_l93(case, rng, ty)
+        if k == "track":
+            return self.typed_track(case, rng, ty)
+        if k == "hist":
+            return H.typed_hist(case, ty or rand_ty(rng))
+        return case
+
     def cases(self, rng, tier):
+        out = self.cases_float(rng, tier)
+        # every case after the enumerated grid may be handed over with non-float numbers; the grid itself a second time
+        grid = 9 * 7 * 3 * 3
+        typed = [self.typed_pt(c, rng) for c in out[:grid] if rng.random() < 0.25]
+        return out[:grid] + typed + [self.maybe_typed(c, rng) for c in out[grid:]]
+
+    def cases_float(self, rng, tier):
         out = []
         quick = tier == "quick"
         # enumerated special grid
@@ -358,6 +457,8 @@ class P(Prop):
     def describe(self, case):
         k = case["kind"]
         t = {"kind": k}
+        if k != "resid":
+            t["num"] = "/".join(case["ty"]) if case.get("ty") else "float"
         if k == "pt":
             lon, lat, h = case["p"]
             t["lat_zone"] = ("equator" if abs(lat) < 1e-3 else "near-pole" if abs(lat) > 89 else "mid")
@@ -385,12 +486,12 @@ class P(Prop):
         return True
 
     # ---------------------------------------------------------------- implementation
-    def mk_base(self, b):
+    def mk_base(self, b, ty=None):
         if b is None:
             return None
         if b[0] == "S":
             return int(b[1])
-        return self.oc.GeoCoords(b[1], b[2], b[3]) if b[0] == "G" else self.oc.ECEFCoords(b[1], b[2], b[3])
+        return (self.oc.GeoCoords if b[0] == "G" else self.oc.ECEFCoords)(*wrap3(b[1:4], ty))
 
     @staticmethod
     def xyz(c):
@@ -399,10 +500,11 @@ class P(Prop):
     def impl(self, case):
         oc = self.oc
         k = case["kind"]
+        ty = case.get("ty")
         if k == "pt":
-            g = oc.GeoCoords(*case["p"])
-            B = lambda: self.mk_base(case["b"])
-            B2 = lambda: self.mk_base(case["b2"])
+            g = oc.GeoCoords(*wrap3(case["p"], ty))
+            B = lambda: self.mk_base(case["b"], ty)
+            B2 = lambda: self.mk_base(case["b2"], ty)
             ecef = g.toECEFCoords()
             geo2 = ecef.toGeoCoords()
             enu = g.toENUCoords(B())
@@ -415,21 +517,21 @@ class P(Prop):
             vals = [ecef, geo2, enu, geo3, enuE, ecef2, baseEnu, enu2, geo4]
             return {name: self.xyz(v) for (name, _), v in zip(PT_FIELDS, vals)}
         if k == "l93":
-            g = oc.GeoCoords(*case["p"])
+            g = oc.GeoCoords(*wrap3(case["p"], ty))
             f = g.toProjCoords(2154)
             i = f.toGeoCoords(2154)
             f2 = i.toProjCoords(2154)
             return {"fwd": self.xyz(f), "inv": self.xyz(i), "fwd2": self.xyz(f2)}
         if k == "track":
             cls = {"G": oc.GeoCoords, "E": oc.ECEFCoords, "N": oc.ENUCoords}[case["srid"]]
-            tr = self.Track([self.Obs(cls(*p), self.ObsTime()) for p in case["pts"]], base=self.mk_base(case["base0"]))
+            tr = self.Track([self.Obs(cls(*wrap3(p, ty)), self.ObsTime()) for p in case["pts"]], base=self.mk_base(case["base0"], ty))
             states, err = [], None
             for name, arg in case["ops"]:
                 try:
                     if name == "PROJ":
                         tr.toProjCoords(int(arg[1]))
                     else:
-                        getattr(tr, OPNAMES[name])(self.mk_base(arg))
+                        getattr(tr, OPNAMES[name])(self.mk_base(arg, ty))
                     states.append(self.state(tr))
                 except BaseException as e:
                     if isinstance(e, KeyboardInterrupt):
@@ -438,7 +540,7 @@ class P(Prop):
                     break
             return {"states": states, "err": err}
         if k == "hist":
-            return H.Runner(oc, self.Obs, self.Track, self.ObsTime).run(case)
+            return H.Runner(oc, self.Obs, self.Track, self.ObsTime, ty).run(case)
         if k == "resid":
             r = {"dlat": 0.0, "at": [0.0, 0.0], "dh": 0.0, "ath": [0.0, 0.0], "lon": 0.0}
             for i in range(case["n"]):
@@ -553,6 +655,7 @@ class P(Prop):
             return None
         if "states" not in impl_out and "err" in impl_out:
             return "implementation raised %s (%s); model=%s" % (impl_out["err"], impl_out.get("detail"), str(model_out)[:200])
+        close_m, close_geo = corr_close_m(case), corr_close_geo(case)
         if k == "pt":
             for name, typ in PT_FIELDS:
                 a, b = impl_out[name], model_out[name]
@@ -705,9 +808,11 @@ class P(Prop):
         off by up to 1.4e-6 m (Bowring one-step truncation, grows as h^2) for heights up to 10 km, every position converted back with the recorded base is shifted by
         that much, and for a position within 0.6 degree of a pole this is more than 1e-9 degree of longitude (never more
         than 1e-8 degree; latitude and height stay within the bounds)."""
+        import re
+        if case.get("kind") == "hist" and msg:
+            return self.FINDING_CLASS if H.finding_recorded_base(case, msg) else None
         if case.get("kind") != "track" or case["srid"] == "N" or not msg:
             return None
-        import re
         m = re.search(r"angles differ by \(([-+.\de]+), ([-+.\de]+)\) deg$", msg)
         if not m or float(m.group(1)) > 1e-8 or float(m.group(2)) > TOL_DEG:
             return None
@@ -726,6 +831,21 @@ class P(Prop):
     # ---------------------------------------------------------------- shrinking / search
     def shrink(self, case):
         k = case["kind"]
+        ty = case.get("ty")
+        if ty:
+            # do the number types matter at all? which slot? would a plain int do?
+            yield {a: b for a, b in case.items() if a != "ty"}
+            for c in range(3):
+                if ty[c] != "f":
+                    q = list(ty)
+                    q[c] = "f"
+                    if any(t != "f" for t in q):
+                        yield dict(case, ty=q)
+            for c in range(3):
+                if ty[c] not in ("f", "int"):
+                    q = list(ty)
+                    q[c] = "int"
+                    yield dict(case, ty=q)
         if k == "hist":
             yield from H.shrink(case)
         if k == "resid" and (case["n"] > 1 or case["m"] > 1):
@@ -770,6 +890,12 @@ class P(Prop):
                     yield dict(case, pts=q)
 
     def mutate(self, case, rng):
+        """neighbours of a disagreeing case: same stream, near-by values, handed over in the number types of the case
+        (a float case: now and then in other types)"""
+        for c in self.mutate_float(case, rng):
+            yield self.maybe_typed(c, rng, case.get("ty"), share=0.3)
+
+    def mutate_float(self, case, rng):
         k = case["kind"]
         if k == "pt":
             for _ in range(6):
@@ -781,9 +907,16 @@ class P(Prop):
         elif k == "hist":
             for _ in range(6):
                 yield H.rand_hist(self, rng)
-        else:
+        elif k == "track":
             for _ in range(6):
                 yield self.rand_track(rng)
+        elif k == "resid":
+            # points of the block, at any longitude, with any base
+            for _ in range(6):
+                lat = case["lat0"] + rng.random() * case["dlat"] * max(1, case["n"] - 1)
+                g = [rng.uniform(-180.0, 180.0), max(-89.8999999, min(89.8999999, lat)),
+                     max(-1000.0, min(10000.0, case["h0"] + rng.random() * case["dh"] * max(1, case["m"] - 1)))]
+                yield {"kind": "pt", "p": g, "b": self.rand_base(g, rng), "b2": self.rand_base(g, rng)}
 
 
 # ---- tie to the source by translation (tools/py2lean.py -> lean/TracklibVerif/Gen/ObsCoords.lean, regenerated on every run)
